@@ -11,6 +11,9 @@ if __name__ == "__main__":
     with open(pkl, "rb") as f:
         job = cp.load(f)
     res = {"proj": project(job)}
+    if len(sys.argv) > 4 and sys.argv[4] == "ship-only":
+        json.dump(res, open(outp, "w"), default=str)
+        sys.exit(0)
     try:
         job.run(rerun=False) if not job.is_async else None
         if job.is_async:
